@@ -83,7 +83,7 @@ func (req *TimeStampReq) SanityCheckToken(psd *pkcs7.ContentInfoSignedData) erro
 	if err != nil {
 		return err
 	}
-	if req.Nonce.Cmp(info.Nonce) != 0 {
+	if req.Nonce != nil && (info.Nonce == nil || req.Nonce.Cmp(info.Nonce) != 0) {
 		return errors.New("request nonce mismatch")
 	}
 	if !hmac.Equal(info.MessageImprint.HashedMessage, req.MessageImprint.HashedMessage) {
@@ -97,6 +97,8 @@ func unpackTokenInfo(psd *pkcs7.ContentInfoSignedData) (*TSTInfo, error) {
 	infobytes, err := psd.Content.ContentInfo.Bytes()
 	if err != nil {
 		return nil, fmt.Errorf("unpack TSTInfo: %w", err)
+	} else if len(infobytes) == 0 {
+		return nil, errors.New("unpack TSTInfo: empty content")
 	} else if infobytes[0] == 0x04 {
 		// unwrap dummy OCTET STRING
 		_, err = asn1.Unmarshal(infobytes, &infobytes)
